@@ -436,6 +436,19 @@ def check(case: dict, ctx: Ctx) -> None:
         # the operation validates content for the new type itself; if the reference tree is invalid a refusal was due
         if V.node_problems(rs, exp):
             ctx.label("set_node_markup:would-be-invalid")
+            T0 = P.tokens_of(doc_p["c"], rs.leaf_types)
+            pos = op["pos"]
+            if 0 <= pos < len(T0) and T0[pos][0] == "leaf":
+                # a leaf is re-inserted through the replace fitter, which may adapt it to its parent (drop marks the
+                # parent does not allow); the statement then only demands that nothing but the addressed node changed
+                T1 = P.tokens_of(got["c"], rs.leaf_types)
+                require(
+                    len(T1) == len(T0) and T1[:pos] == T0[:pos] and T1[pos + 1 :] == T0[pos + 1 :] and T1[pos][:2] == ("leaf", op["type"] or T0[pos][1]),
+                    "set_node_markup:changed-elsewhere",
+                    f"set_node_markup on the leaf at {pos} changed more than that node: {got['c']}",
+                )
+                ctx.label("set_node_markup:leaf-adapted-by-fitter")
+                return
             require(False, "set_node_markup:accepted-invalid", f"set_node_markup accepted a change that yields {V.node_problems(rs, exp)[:1]}")
     require(got == exp, f"{k}:wrong-effect", f"{k} {({x: y for x, y in op.items() if x != 'op'})}: got {got['c']}, expected {exp['c']}" if k != "set_doc_attribute" else f"doc attrs {got['a']} expected {exp['a']}")
     # structure tokens identical for mark operations
